@@ -173,10 +173,10 @@ func (e *compatibilityEngine) NewInstantQuery(q storage.Queryable, opts *promql.
 		e.queries.WithLabelValues("true").Inc()
 		return e.prom.NewInstantQuery(q, opts, qs, ts)
 	}
-	e.queries.WithLabelValues("false").Inc()
 	if err != nil {
 		return nil, err
 	}
+	e.queries.WithLabelValues("false").Inc()
 
 	exec = model.VerifWrapRoot(exec, qs, ts.UnixMilli(), ts.UnixMilli(), 0)
 	if e.debugWriter != nil {
@@ -211,10 +211,10 @@ func (e *compatibilityEngine) NewRangeQuery(q storage.Queryable, opts *promql.Qu
 		e.queries.WithLabelValues("true").Inc()
 		return e.prom.NewRangeQuery(q, opts, qs, start, end, step)
 	}
-	e.queries.WithLabelValues("false").Inc()
 	if err != nil {
 		return nil, err
 	}
+	e.queries.WithLabelValues("false").Inc()
 
 	exec = model.VerifWrapRoot(exec, qs, start.UnixMilli(), end.UnixMilli(), step.Milliseconds())
 	if e.debugWriter != nil {
